@@ -229,15 +229,36 @@ namespace igris
 
         template <typename... Args> void emplace_back(Args &&... args)
         {
-            reserve(m_size + 1);
-            igris::constructor(m_data + m_size, std::forward<Args>(args)...);
+            if (m_size + 1 > m_capacity)
+            {
+                // the arguments may refer to an element of this vector:
+                // use them before the buffer is replaced
+                T value(std::forward<Args>(args)...);
+                reserve(m_size + 1);
+                igris::constructor(m_data + m_size, std::move(value));
+            }
+            else
+            {
+                igris::constructor(m_data + m_size,
+                                   std::forward<Args>(args)...);
+            }
             m_size++;
         }
 
         void push_back(const T &ref)
         {
-            reserve(m_size + 1);
-            igris::constructor(m_data + m_size, ref);
+            if (m_size + 1 > m_capacity)
+            {
+                // ref may be an element of this vector: copy it before the
+                // buffer is replaced
+                T value(ref);
+                reserve(m_size + 1);
+                igris::constructor(m_data + m_size, std::move(value));
+            }
+            else
+            {
+                igris::constructor(m_data + m_size, ref);
+            }
             m_size++;
         }
 
@@ -290,8 +311,11 @@ namespace igris
         iterator insert(const_iterator pos, const T &value)
         {
             size_t _pos = pos - m_data;
+            // value may be an element of this vector: copy it before the
+            // elements move
+            T copy(value);
             size_t oldsize = open_gap(_pos, 1);
-            fill_gap(_pos, oldsize, value);
+            fill_gap(_pos, oldsize, std::move(copy));
             return m_data + _pos;
         }
 
